@@ -290,10 +290,30 @@ def evidence(pid, tier, seed, level, cfg, eng, results, R, bounded, known_hits, 
                 'enumerations with the stated bounds on the real functions (never counted as discharged)',
         'explanation': cfg.get('explanation', ''),
         'linking_lemmas': cfg.get('lemmas', []),
+        'lemmas_mechanised': lemma_status(tier),
     }
     return {'property_id': pid, 'tier': tier if tier in ('quick', 'thorough') else 'quick', 'seed': seed,
             'level': level, 'coverage': cov, 'assumptions': cfg.get('assumptions', []) + COMMON_ASSUMPTIONS,
             'wall_s': round(wall, 2), 'violations': len(violations)}
+
+
+def lemma_status(tier):
+    """the Lean mechanisation of the linking lemmas (lemmas/Lemmas.lean): re-checked with `lean` in the thorough tier (or
+    when VERIF_LEAN=1); the quick tier records the file hash and the theorem names only"""
+    import importlib.util
+    spec = importlib.util.spec_from_file_location('check_lemmas', os.path.join(VERIF, 'tools', 'check_lemmas.py'))
+    m = importlib.util.module_from_spec(spec)
+    spec.loader.exec_module(m)
+    if tier == 'thorough' or os.environ.get('VERIF_LEAN') == '1':
+        r = m.run()
+        r['checked_in_this_run'] = True
+        return r
+    import hashlib
+    import re
+    text = open(m.SRC).read()
+    return {'file': 'lemmas/Lemmas.lean', 'sha256': hashlib.sha256(text.encode()).hexdigest()[:16],
+            'theorems': re.findall(r'^\s*theorem\s+(\w+)', text, re.M), 'checked_in_this_run': False,
+            'note': 'run `python3-vt tools/check_lemmas.py` or the thorough tier to re-check with Lean'}
 
 
 COMMON_TRUSTED = [
